@@ -285,15 +285,6 @@ def parseScript (s : String) : Option (List (Nat × WFault)) :=
     | i :: rest => do some (← i.toNat?, ← parseWFault (":".intercalate rest))
     | [] => none
 
-/-- priority map files (`.._begin_02.map`): which entries land in which file depends on Go's map
-iteration order (C04 factors the suffixes out of its normal form); raw file comparison between two
-controllers is meaningless when they exist -/
-def isPrioFile (n : String) : Bool :=
-  n.endsWith ".map" &&
-    (match ((n.dropEnd 4).toString.toList.reverse) with
-     | a :: b :: '_' :: _ => a.isDigit && b.isDigit
-     | _ => false)
-
 def showNames (l : List String) : String := if l.isEmpty then "-" else "+".intercalate l
 
 def field (fs : List String) (key : String) : Option String :=
